@@ -230,6 +230,9 @@ func (th *Theory) tagOf(t types.Type) int {
 // sortOf maps a Go type to an SMT sort.
 func (th *Theory) sortOf(t types.Type) Sort {
 	t = types.Unalias(t)
+	if isBuilderType(t) {
+		return SStr // a strings.Builder value is modelled by the string written so far
+	}
 	switch u := t.Underlying().(type) {
 	case *types.Basic:
 		info := u.Info()
